@@ -42,7 +42,7 @@ CLAIMED = {
     "C07": dict(
         engine="sim-crash", level="exploration", ref="DESIGN.md §6 C07",
         technique="deterministic simulation: seeded savepoint histories with crash-image exploration against the reference model",
-        text="Seeded search over interleavings of ephemeral/persistent savepoint creation, restore, delete, drop with data transactions of all durabilities, clean reopen, dirty restart; restore results, later-savepoint invalidation, error variants and the persistent savepoint list are compared with the model; crash images must list exactly the model's persistent savepoints and each must restore to its captured contents."),
+        text="Seeded search over interleavings of ephemeral/persistent savepoint creation, restore, delete, drop with data transactions of all durabilities, clean reopen, dirty restart; restore results, later-savepoint invalidation, error variants and the persistent savepoint list are compared with the model; crash images (sampled, plus per run up to two enumeration bursts of every all-pending-writes-but-one image at a sync) must list exactly the model's persistent savepoints and each must restore to its captured contents."),
     "C08": dict(
         engine="sim-fault", level="fault_enumeration", ref="DESIGN.md §6 C08",
         technique="deterministic simulation with fault injection: for each seeded history, the k-th backend call fails (once or permanently, optionally after a partially applied write) for every k, then the surviving storage is reopened from a crash state",
@@ -62,7 +62,7 @@ CLAIMED = {
     "C12": dict(
         engine="sim-corrupt", level="fault_enumeration", ref="DESIGN.md §6 C12",
         technique="deterministic simulation with stored-byte corruption faults: closed images of seeded histories are altered (all 2560 header bits in slices; pages by role from the independent decoder) and opened + check_integrity()'d by the real code",
-        text="For closed images produced by seeded histories: every bit of the 320-byte super-header (enumerated in 16 slices across runs) and sampled alterations stratified by page role (data tree, system tree, pending-free pages; single bit, single byte, run of bytes within a page, two pages swapped; biased to the used head of a page) are applied; then open and check_integrity(): an error, or Ok(false) followed by contents equal to one commit point of the history and a second Ok(true), or Ok(true) with contents (and persistent savepoint list) equal to exactly one commit point. Run on a build without debug assertions, as users run it. A panic on damaged bytes is counted as 'reported' and shown in the evidence, not raised.",
+        text="For closed images produced by seeded histories: every bit of the 320-byte super-header (enumerated in 16 slices across runs) and sampled alterations stratified by page role (data tree, system tree, pending-free pages; single bit, single byte, run of bytes within a page, two pages swapped; biased to the used head of a page; and structure-aware flips in the key/value offset tables of branch and leaf pages, biased to their last entries) are applied; then open and check_integrity(): an error, or Ok(false) followed by contents equal to one commit point of the history and a second Ok(true), or Ok(true) with contents (scans and a point lookup of every entry, and the persistent savepoint list) equal to exactly one commit point. Run on a build without debug assertions, as users run it. A panic on damaged bytes is counted as 'reported' and shown in the evidence, not raised.",
         note="Trusted base: harness, reference model, independent decoder (used only to place alterations). A panic while opening or checking a damaged file is counted, not judged. Sampling outside the header."),
     "C13": dict(
         engine="sim-crash", level="exploration", ref="DESIGN.md §6 C13",
@@ -76,7 +76,7 @@ CLAIMED = {
     "C17": dict(
         engine="sim-conf", level="exploration", ref="DESIGN.md §6 C17 (conformance tier)",
         technique="deterministic simulation, fault-free conformance tier: seeded catalog programs against a name -> (kind, types, contents) model",
-        text="Seeded generation of open/create/rename/delete/list programs on tables and multimaps with colliding names and deliberately wrong kinds and types, interleaved with data operations, handle drops, abort and reopen; every result including the error variant equals the model."),
+        text="Seeded generation of open/create/rename/delete/list programs on tables and multimaps with colliding names and deliberately wrong kinds and types, interleaved with data operations, handle drops, abort and reopen; type probes create a table with a user-defined key or value type and reopen it with a same-named type of another width, another name, or a tuple containing a look-alike of a built-in element; every result including the error variant (TableTypeMismatch, TypeDefinitionChanged, TableIsMultimap, TableAlreadyOpen ...) equals the model."),
     "C18": dict(
         engine="sim-cursor", level="exploration", ref="DESIGN.md §6 C18 (conformance tier, experimental_cursor build)",
         technique="deterministic simulation, fault-free conformance tier on the experimental_cursor feature build: seeded cursor sessions against a sorted-map gap cursor, with commit / abort / reopen / dirty restart between sessions",
@@ -85,7 +85,7 @@ CLAIMED = {
     "C19": dict(
         engine="sim-compat", level="exploration", ref="DESIGN.md §6 C19",
         technique="deterministic simulation: two real implementations (the working tree and the released redb 3.0.0 from the offline cargo cache) alternate on one simulated disk, handing over clean-closed and crash-recovered files, against the reference model",
-        text="Direction 1: seeded histories written by the working tree (4 KiB pages, the geometry both releases produce; variable-width keys with shortened routing keys, multimaps with subtrees, persistent savepoints, non-durable commits, compaction) are handed to redb 3.0.0 after a clean close and after this code recovered one of its own crash images; 3.0.0 must open them, pass its check_integrity(), read contents and savepoint list equal to the model, and after 3.0.0 has written to the file the working tree must read everything back and pass its own check. Direction 2: a reduced interpreter runs the same plans through the 3.0.0 API; its clean-closed files and the files 3.0.0 recovered from its own crash images must open in the working tree with model-equal contents, restorable savepoints and check_integrity() == Ok(true).",
+        text="Direction 1: seeded histories written by the working tree (4 KiB pages, the geometry both releases produce; variable-width keys with shortened routing keys, multimaps with subtrees, persistent savepoints, non-durable commits, compaction) are handed to redb 3.0.0 after a clean close and after this code recovered one of its own crash images; 3.0.0 must open them, pass its check_integrity(), read contents (scans, a point lookup of every key and bounded seeks; string keys include CJK and emoji sharing lead bytes) and savepoint list equal to the model, and after 3.0.0 has written to the file the working tree must read everything back and pass its own check. Direction 2: a reduced interpreter runs the same plans through the 3.0.0 API; its clean-closed files and the files 3.0.0 recovered from its own crash images must open in the working tree with model-equal contents, restorable savepoints and check_integrity() == Ok(true).",
         note="Trusted base: harness, reference model; redb 3.0.0 is the released crate, unmodified. Page size 4096 and default region size only. An Ok(false) from 3.0.0's check_integrity() is not counted when 3.0.0's own open had grown the file without committing (a defect of 3.0.0 that shows on files it wrote itself, see DESIGN.md corrections). Table deletion is not exercised through the 3.0.0 writer (3.0.0 panics on create+delete in one transaction). Sampling."),
     "C20": dict(
         engine="sim-conf", level="exploration", ref="DESIGN.md §6 C20",
@@ -152,7 +152,7 @@ manifest = {
     ],
     "checks": checks,
     "not_applicable": na,
-    "notes": "Exit codes: 0 held, 1 violation (VIOLATION line + replay file), 2 harness error. Default seed fixed (VERIF_SEED overrides). Known findings: /verif/known_findings.json. See DESIGN.md.",
+    "notes": "Exit codes: 0 held, 1 violation (VIOLATION line + replay file), 2 harness error. Default seed fixed (VERIF_SEED overrides). Known findings: /verif/known_findings.json. Every check first replays its regression corpus (/verif/corpus/<id>/*.json: recorded findings and the minimised runs that exposed seeded changes), then runs the seeded search. See DESIGN.md.",
 }
 json.dump(manifest, open("/verif/MANIFEST.json", "w"), indent=1)
 print("claimed:", sorted(CLAIMED), "unclaimed:", [x["property_id"] for x in na])
